@@ -663,6 +663,12 @@ class SInterp(object):
             raise Raised('AttributeError')
         if isinstance(o, Sym):
             return Sym('attr', o, attr)
+        if isinstance(o, TypeV) and o.name == 'dict' and attr == 'fromkeys':
+            return lambda itp, a, k: dict.fromkeys(itp.iterate(a[0]), *(a[1:2]))
+        if isinstance(o, TypeV) and o.name in ('list', 'dict', 'str', 'tuple') and getattr(o, 'getattr', None) is None:
+            meth = getattr({'list': list, 'dict': dict, 'str': str, 'tuple': tuple}[o.name], attr, None)
+            if meth is not None:
+                return lambda itp, a, k, attr=attr: itp.apply(itp.getattr_(a[0], attr), list(a[1:]), k)
         if isinstance(o, TypeV):
             h = getattr(o, 'getattr', None)
             if h is not None:
@@ -871,10 +877,112 @@ class SInterp(object):
                 raise Raised('TypeError')
             return h(self, f, args, kwargs)
         if isinstance(f, Sym):
+            r = self.stdlib(render(f), args, kwargs)
+            if r is not NotImplemented:
+                return r
             return Sym('call', f, tuple(args), dict(kwargs))
         if callable(f):
             return f(self, args, kwargs)          # external stub supplied by a scenario
         raise Raised('TypeError')
+
+    def stdlib(self, name, args, kwargs):
+        """the pure helpers of functools / itertools / operator / collections that argument handling is written with"""
+        it = self.iterate
+        if name in ('functools.reduce', 'reduce'):
+            xs = it(args[1])
+            if len(args) > 2:
+                acc = args[2]
+            elif xs:
+                acc, xs = xs[0], xs[1:]
+            else:
+                raise Raised('TypeError')
+            for x in xs:
+                acc = self.apply(args[0], [acc, x], {})
+            return acc
+        if name in ('functools.partial', 'partial'):
+            f0, a0, k0 = args[0], list(args[1:]), dict(kwargs)
+            return lambda itp, a, k: itp.apply(f0, a0 + list(a), dict(k0, **k))
+        if name in ('functools.wraps',):
+            return lambda itp, a, k: a[0]
+        if name == 'itertools.product':
+            return [tuple(x) for x in itertools.product(*[it(a) for a in args])]
+        if name == 'itertools.chain':
+            return [x for a in args for x in it(a)]
+        if name == 'itertools.chain.from_iterable':
+            return [x for a in it(args[0]) for x in it(a)]
+        if name == 'itertools.count':
+            start = args[0] if args else kwargs.get('start', 0)
+            step = args[1] if len(args) > 1 else kwargs.get('step', 1)
+            return [start + k * step for k in range(64)]            # (an endless counter, read as far as any search in this code base goes)
+        if name == 'itertools.repeat':
+            return [args[0]] * (args[1] if len(args) > 1 else 64)
+        if name == 'itertools.islice':
+            xs = it(args[0])
+            return xs[slice(*args[1:])]
+        if name in ('itertools.takewhile', 'itertools.dropwhile'):
+            xs = it(args[1])
+            k = 0
+            while k < len(xs) and self.truth(self.apply(args[0], [xs[k]], {})):
+                k += 1
+            return xs[:k] if name.endswith('takewhile') else xs[k:]
+        if name == 'itertools.zip_longest':
+            return [tuple(x) for x in itertools.zip_longest(*[it(a) for a in args], **kwargs)]
+        if name == 'itertools.permutations':
+            return [tuple(x) for x in itertools.permutations(it(args[0]), *args[1:])]
+        if name == 'itertools.combinations':
+            return [tuple(x) for x in itertools.combinations(it(args[0]), args[1])]
+        if name == 'itertools.accumulate':
+            out, acc = [], None
+            for k, x in enumerate(it(args[0])):
+                acc = x if k == 0 else (self.apply(args[1], [acc, x], {}) if len(args) > 1 else self.binop(ast.Add(), acc, x))
+                out.append(acc)
+            return out
+        if name.startswith('operator.'):
+            op = name.split('.', 1)[1]
+            table = {'add': ast.Add, 'sub': ast.Sub, 'mul': ast.Mult, 'truediv': ast.Div, 'floordiv': ast.FloorDiv, 'mod': ast.Mod, 'or_': ast.BitOr, 'and_': ast.BitAnd,
+                     'xor': ast.BitXor, 'pow': ast.Pow}
+            cmps = {'eq': ast.Eq, 'ne': ast.NotEq, 'lt': ast.Lt, 'le': ast.LtE, 'gt': ast.Gt, 'ge': ast.GtE, 'is_': ast.Is, 'is_not': ast.IsNot}
+            if op in table and len(args) == 2:
+                return self.binop(table[op](), args[0], args[1])
+            if op in cmps and len(args) == 2:
+                return self.compare(cmps[op](), args[0], args[1])
+            if op == 'contains' and len(args) == 2:
+                return self.compare(ast.In(), args[1], args[0])
+            if op == 'not_' and len(args) == 1:
+                return not self.truth(args[0])
+            if op == 'getitem' and len(args) == 2:
+                return self.getitem(args[0], args[1])
+            if op == 'itemgetter':
+                keys = list(args)
+                return (lambda itp, a, k: itp.getitem(a[0], keys[0])) if len(keys) == 1 else (lambda itp, a, k: tuple(itp.getitem(a[0], kk) for kk in keys))
+            if op == 'attrgetter':
+                names = list(args)
+                def get(itp, o, path):
+                    for part in path.split('.'):
+                        o = itp.getattr_(o, part)
+                    return o
+                return (lambda itp, a, k: get(itp, a[0], names[0])) if len(names) == 1 else (lambda itp, a, k: tuple(get(itp, a[0], nn) for nn in names))
+            if op == 'methodcaller':
+                mname, margs, mkw = args[0], list(args[1:]), dict(kwargs)
+                return lambda itp, a, k: itp.apply(itp.getattr_(a[0], mname), margs, mkw)
+        if name in ('collections.OrderedDict', 'OrderedDict'):
+            return self.construct(TypeV('dict'), args, kwargs)
+        if name in ('copy.copy', 'copy.deepcopy'):
+            x = args[0]
+            if isinstance(x, Obj) and 'copy' in x.methods:
+                return x.methods['copy'](self, x, [], {})
+            if isinstance(x, (list, dict, set)) and not has_abstract(x):
+                import copy as _copy
+                return _copy.deepcopy(x) if name.endswith('deepcopy') else _copy.copy(x)
+            if isinstance(x, list):
+                return list(x)
+            if isinstance(x, dict):
+                return dict(x)
+            if isinstance(x, (int, float, str, bool, tuple)) or x is None:
+                return x
+        if name in ('warnings.warn',):
+            return None
+        return NotImplemented
 
     def call_fn(self, f, args, kwargs):
         self.depth += 1
